@@ -280,6 +280,9 @@ SCRIPTS = collections.OrderedDict([
     ("two statements", ["CREATE TABLE t (a int);\nALTER TABLE t ADD UNIQUE (a);\nCREATE SEQUENCE sq START WITH 1;\n",
                         "create table u (b text);\nalter table u add primary key (b);\ncreate sequence s2 increment by 2;\n",
                         "CREATE TABLE s.v (c int);\nALTER TABLE s.v ADD CHECK (c > 0);\nCREATE SEQUENCE s.q MINVALUE 1;\n"]),
+    ("words ending in r or a backslash at line ends", ["CREATE TABLE customer\n(\n  owner varchar,\n  nr integer\n);\nCREATE SEQUENCE order_number\nSTART WITH 1;\n",
+                                                       "create table user\n(\n  editor char,\n  r number\n);\ncreate sequence ctr\nstart with 2;\n",
+                                                       "CREATE TABLE s.Supplier\n(\n  Year varchar,\n  other float\n);\nCREATE SEQUENCE s.Nr\nSTART WITH 3;\n"]),
     ("literals", ["CREATE TABLE t (\n  a varchar DEFAULT 'x, y',\n  b text COMMENT 'the (b)'\n);\n",
                   "create table u (\n  c varchar DEFAULT 'p , q',\n  d text COMMENT 'id (of) user'\n);\n",
                   "CREATE TABLE s.v (\n  e char DEFAULT ',',\n  f text COMMENT '()'\n);\n"]),
@@ -515,6 +518,14 @@ LITERALS = collections.OrderedDict([
     ("apostrophe inside double quotes", ['"it\'s"', '"a\'b"', '"\'"']),
     ("double dash inside double quotes", ['"a -- b"', '"--"', '"x--y"']),
     ("line break inside", ["'line one\nline two'", "'a\nb'", "'x,\ny'"]),
+    ("semicolon followed by words", ["'see docs; not used'", "'deprecated;do not use'", "'a; b c'"]),
+    ("square brackets", ["'[]'", "'[none]'", "'see note [1]'"]),
+    ("curly braces", ["'{}'", "'{\"tags\": []}'", "'a {b} c'"]),
+    ("angle brackets and plus", ["'a<b'", "'x > y'", "'1+1'"]),
+    ("back-tick", ["'`a`'", "'x ` y'", "'`'"]),
+    ("other punctuation", ["'a&b|c'", "'50% off!'", "'$1 ~ ^2 ? @x'"]),
+    ("star and slash", ["'a*b'", "'a / b'", "'*'"]),
+    ("backslash", ["'a\\b'", "'C:\\dir'", "'\\d+'"]),
 ])
 LITERAL_SCRIPTS = collections.OrderedDict([
     ("DEFAULT, own line", "CREATE TABLE t (\n  a varchar(10) DEFAULT {L},\n  b int\n);\n"),
@@ -722,3 +733,63 @@ def check_no_raise(ck, ctx, rule="O-noraise"):
         ck.ob(rule, f"script: {sname}", ok, "Parser.parse_data must not raise in the pre-processing" + ("" if ok else "; " + detail),
               "Parser.parse_data (evaluated abstractly)", witness=None if ok else repr(text)[:160])
     ck.count("no_raise_instances", n)
+
+
+# ---- identifiers with unusual characters through the line pre-processing and the scanner (C06) ---------------------------
+NAMES = collections.OrderedDict([
+    ("bracketed name with #", ["[Order#]", "[Line#]", "[po#1]"]),
+    ("back-ticked name with #", ["`po#`", "`a#b`", "`#x`"]),
+    ("double-quoted name with #", ['"Item #"', '"a#"', '"#"']),
+    ("name with $", ["a$b", "sys$x", "x$"]),
+    ("double-quoted name with -", ['"my-col"', '"a-b-c"', '"-"']),
+    ("back-ticked name with -", ["`my-proj`", "`a-b`", "`x-1`"]),
+    ("bracketed name with a blank", ["[my col]", "[a b c]", "[x 1]"]),
+    ("back-ticked name with a blank", ["`my col`", "`a b c`", "`x 1`"]),
+    ("double-quoted name with a blank", ['"my col"', '"a b c"', '"x 1"']),
+    ("double-quoted name with a dot", ['"a.b"', '"v1.status"', '"x.y.z"']),
+    ("double-quoted name with --", ['"a--b"', '"--"', '"x -- y"']),
+    ("double-quoted keyword", ['"select"', '"TABLE"', '"Primary"']),
+    ("bracketed keyword", ["[select]", "[TABLE]", "[Primary]"]),
+    ("name with digits first", ["1st", "2nd_col", "9x"]),
+    ("long name", ["a" * 64, "very_long_column_name_with_many_parts_and_numbers_0123456789", "X" * 40]),
+])
+NAME_SCRIPTS = collections.OrderedDict([
+    ("table name", "CREATE TABLE {N} (\n  id int,\n  x int\n);\n"),
+    ("first column", "CREATE TABLE t (\n  {N} int,\n  x int\n);\n"),
+    ("later column and key list", "CREATE TABLE t (\n  x int,\n  {N} int,\n  PRIMARY KEY ({N})\n);\n"),
+    ("one-line statement", "CREATE TABLE t (x int, {N} varchar(5) NOT NULL);\n"),
+])
+
+
+def check_names(ck, ctx, rule="O-name"):
+    """an identifier with unusual characters reaches the grammar verbatim and is ONE lexeme of the scanner, in every naming
+    position tried (parse_data evaluated abstractly, then the lexer rules in PLY's order)"""
+    lm = LineMachine(ctx)
+    from .seam import lexemes
+    n = 0
+    for cname, names in NAMES.items():
+        fails = []
+        for sname, tmpl in NAME_SCRIPTS.items():
+            for nm in names:
+                n += 1
+                text = tmpl.replace("{N}", nm)
+                try:
+                    handed = list(lm.run_script(text)[0])
+                except (PyRaise, Raised) as e:
+                    fails.append((sname, text, f"{nm}: raises {e}"))
+                    break
+                except (NonUniform, LexUnknown) as e:
+                    raise AnalysisError(f"{rule} {cname} ({sname}): {e}")
+                if len(handed) != 1 or nm not in handed[0]:
+                    fails.append((sname, text, f"{nm} reaches the grammar as {handed!r}"))
+                    break
+                if nm not in lexemes(ctx.lexer, handed[0]):
+                    lx = lexemes(ctx.lexer, handed[0])
+                    k = next((j for j, x in enumerate(lx) if x and x[0] == nm[0] and x != "(" ), 0)
+                    fails.append((sname, text, f"{nm} is scanned as {' | '.join(lx[k:k + 4])!r}"))
+                    break
+        ok = not fails
+        ck.ob(rule, cname, ok, "the name must reach the grammar verbatim and be taken whole by one lexer rule" +
+              ("" if ok else f"; in {len(fails)} of {len(NAME_SCRIPTS)} positions ({', '.join(f[0] for f in fails)}): {fails[0][2]}"),
+              "Parser.parse_data (evaluated abstractly) + lexer rules in PLY's order", witness=None if ok else repr(fails[0][1])[:160])
+    ck.count("name_instances", n)
